@@ -111,3 +111,6 @@ package b6
 //@ func World.HasFeatureWithID
 //@   trusted
 //@   function
+//@ func World.FindFeatureByID
+//@   trusted
+//@   function
